@@ -16,6 +16,8 @@ pub fn tree_src() -> Vec<Entry> {
         Entry::link("src/l", "small"),
         Entry::new("src/p", Kind::Fifo).mode(0o644),
         // every kind of regular file takes its own path through the drivers: empty, one byte, sparse
+        Entry::dir("src/emptyd"),
+        Entry::dir("src/d/emptyd2"),
         Entry::file("src/empty", "").mode(0o604).mtime(1_300_000_003, 44),
         Entry::file("src/one", "1").mode(0o606).mtime(1_300_000_004, 55),
         Entry::new("src/sparse", Kind::File(crate::scen::Content::Layout { unit: 4096, units: vec![true, false, true], tail: 0, seed: 9 })).mode(0o660).mtime(1_300_000_005, 66),
@@ -58,7 +60,7 @@ pub fn errnos_for(e: &Ev) -> Vec<i32> {
         }
         "statx" | "newfstatat" | "fstat" | "stat" | "lstat" => vec![EACCES, EIO],
         "getdents64" => vec![EIO],
-        "mkdir" | "mkdirat" => vec![EACCES, ENOSPC, EROFS],
+        "mkdir" | "mkdirat" => vec![EACCES, ENOSPC, EROFS, EEXIST],
         "symlink" | "symlinkat" => vec![EEXIST, EACCES],
         "mknod" | "mknodat" => vec![EPERM],
         "rename" | "renameat" | "renameat2" => vec![EACCES],
